@@ -181,8 +181,58 @@ def _work(ctx: Ctx, item):
             ctx.sample({"definition": key, "payload_hex": bp.to_bytes(bn, "little").hex(), "fields": [f.id for f in d.fields][:8]})
 
 
+def _aged_encoder(ctx: Ctx, item):
+    """An encoder that has been handed a message of every definition (encodable or not) encodes like a fresh one."""
+    from nmea2000.decoder import NMEA2000Decoder
+    from nmea2000.encoder import NMEA2000Encoder
+    part, parts, n = item
+    db = canboat.db()
+    aged = NMEA2000Encoder()
+    for d in db.defs:
+        m = gen.benign_message(d) if d.supported else None
+        if m is None:
+            continue
+        for fn in (aged.encode_actisense, aged.encode_ebyte, aged.encode_usb, aged.encode_yacht_devices):
+            try:
+                fn(m)
+            except Exception:
+                pass
+    dec = NMEA2000Decoder()
+    keys = [d.key for d in db.defs if d.encodable][part::parts]
+
+    def strip(pk_list, fast):
+        # the sequence counter of fast-packet frames legitimately differs between two encoder instances
+        return [p.hex() for p in pk_list] if not fast else [p[:5].hex() + "%02x" % (p[5] & 0x1F) + p[6:].hex() for p in pk_list]
+    for key in keys:
+        d = db.by_key[key]
+
+        def one(p, d=d):
+            payload, nbytes, classes = p
+            ctx.count()
+            try:
+                m = dec.decode_basic_string(gen.basic_string(d.pgn, payload, nbytes), already_combined=True)
+            except Exception:
+                return []
+            if m is None or m.id != d.id:
+                return []
+            ctx.nt((d.key, payload, "aged-encoder"))
+            outs = []
+            for e in (aged, NMEA2000Encoder()):
+                try:
+                    outs.append((e.encode_actisense(m), strip(e.encode_ebyte(m), d.fast)))
+                except Exception as ex:
+                    outs.append(("error", type(ex).__name__, str(ex)[:60]))
+            if outs[0] != outs[1]:
+                return [(f"C02|aged-encoder|{d.key}", f"an encoder that has seen every definition produces {str(outs[0])[:120]}, a fresh one {str(outs[1])[:120]}",
+                         {"definition": d.key, "payload_hex": payload.to_bytes(nbytes, "little").hex(), "aged_encoder": True})]
+            return []
+        ctx.hyp(one, gen.payloads(d, mode="accepted", extra_bytes=False), max_examples=n, name="aged-encoder", shrink=False, rounds=2)
+    ctx.klass("aged_encoder_definitions", len(keys))
+
+
 def run(ctx: Ctx):
     db = canboat.db()
+    pmap(ctx, _aged_encoder, [(i, 16, 4 if ctx.quick else 100) for i in range(16)])
     enc = [d for d in db.defs if d.encodable]
     reps = set()
     if ctx.quick:
@@ -211,6 +261,20 @@ def run(ctx: Ctx):
 
 
 def replay(ctx: Ctx, case):
+    if case.get("aged_encoder"):
+        sub = Ctx(ctx.pid)
+        sub.known_open = {}
+        holder = []
+        d = canboat.db().by_key[case["definition"]]
+        data = bytes.fromhex(case["payload_hex"])
+
+        def fake(check, *a, **k):
+            if check.__defaults__ and check.__defaults__[0] is d:
+                holder.extend(check((int.from_bytes(data, "little"), len(data), [])))
+        sub.hyp = fake
+        idx = [x.key for x in canboat.db().defs if x.encodable].index(d.key)
+        _aged_encoder(sub, (idx % 16, 16, 1))
+        return holder
     ck = Checker(ctx)
     d = canboat.db().by_key[case["definition"]]
     data = bytes.fromhex(case["payload_hex"])
